@@ -199,6 +199,21 @@ def run(ctx):
             raise ValueError("value not preserved")
     except Exception as e:  # noqa
         viol.append({"kf": "colon-value", "what": "action value starting with ':' is not treated as data (%s)" % type(e).__name__})
+    # witnesses of repaired defects: each must stay repaired
+    for f in findings_for("C06"):
+        w = f.get("witness") or {}
+        if f.get("status") == "fixed" and "actions" in w:
+            try:
+                fx = FiltersSet("t")
+                fx.addfilter("w", [tuple(c) for c in w["conditions"]], [tuple(a) for a in w["actions"]])
+                px = Parser()
+                if px.parse(str(fx).encode("utf-8")) is not True:
+                    viol.append({"what": "repaired defect %s is back: the rendering of its witness is rejected (%s)" % (f["id"], px.error),
+                                 "input": str(fx)[:400]})
+                texts.append(str(fx).encode("utf-8"))
+                evals += 1
+            except Exception as e:  # noqa
+                viol.append({"what": "repaired defect %s: witness raised %s" % (f["id"], type(e).__name__)})
     impl, ys, model = corr_parse.eval_both(texts)
     diffs = [{"suite": "parse", "input_hex": t.hex(), "input": t.decode("latin-1")[:300], "impl": a[:300], "model": m[:300]} for t, a, m in zip(texts, impl, model) if a != m]
     # the construction logic itself: real `__create_filter` against its Lean model (the model the theorem of Props/C06 is about)
